@@ -5,6 +5,7 @@ import SplVerif.Lemmas.ParserTables
 import SplVerif.Spec.Grammar
 import SplVerif.Lemmas.ParseConform
 import SplVerif.Lemmas.ParseConformStmt
+import SplVerif.Lemmas.ParseConformDecl
 
 namespace Spl.C04
 
@@ -59,6 +60,17 @@ theorem statement_conforms (ctx : Parse.Ctx) {fs : Nat} {ts rest : Grammar.Toks}
   let ⟨a, _, _, b, c⟩ := (ParseConform.sconf_all ctx fs).stmt ts t sp rest hs fm s hat hfm
   ⟨a, b, c⟩
 
+/-- **The syntax tree is the derivation the grammar mandates.**  For every token sequence whose
+    last token is not a comment (every output of the lexer ends with `Eof`): whenever the grammar
+    specification (`Spec/Grammar.lean`: a plain recursive-descent recogniser over the comment-free
+    tokens, ranges = own tokens plus the comment run in front of the first one) derives the program
+    `p`, `parser::parse` of the model returns exactly `p` — every declaration, statement and
+    expression node, every range and `Reference` offset, the doc comments — and attaches no
+    diagnostic anywhere.  No bound on the size of the program or on the nesting depth. -/
+theorem parse_conforms (toks : List Token) (p : Program) (h : Grammar.parse toks = some p)
+    (hend : ParseConform.EndsWithToken toks.toArray) : Parse.parse toks = .ok p :=
+  ParseConform.parse_conforms toks p h hend
+
 /-- the entry conditions hold at the start of every token array -/
 theorem at_start (ctx : Parse.Ctx) : ParseConform.At ctx { pos := 0 } (ParseConform.tsFrom ctx.toks 0) :=
   ⟨Or.inl rfl, Nat.le_refl _, rfl⟩
@@ -70,5 +82,16 @@ def exampleToks : List Token :=
 
 example : (Grammar.expr ⟨exampleToks.toArray⟩ 20 (ParseConform.tsFrom exampleToks.toArray 0)).isSome = true := by
   decide +kernel
+
+/-- Non-vacuity of `parse_conforms`: the specification derives `// doc ⏎ proc main() {var i:int;i:=1;}`
+    (17 tokens, doc comment included), and its last token is `Eof`. -/
+def exampleProgram : List Token :=
+  [⟨.Comment "doc".toList, ⟨0, 6⟩, []⟩, ⟨.Proc, ⟨6, 10⟩, []⟩, ⟨.Ident "main".toList, ⟨11, 15⟩, []⟩, ⟨.LParen, ⟨15, 16⟩, []⟩,
+   ⟨.RParen, ⟨16, 17⟩, []⟩, ⟨.LCurly, ⟨18, 19⟩, []⟩, ⟨.Var, ⟨19, 22⟩, []⟩, ⟨.Ident "i".toList, ⟨23, 24⟩, []⟩, ⟨.Colon, ⟨24, 25⟩, []⟩,
+   ⟨.Ident "int".toList, ⟨25, 28⟩, []⟩, ⟨.Semic, ⟨28, 29⟩, []⟩, ⟨.Ident "i".toList, ⟨29, 30⟩, []⟩, ⟨.Assign, ⟨30, 32⟩, []⟩,
+   ⟨.Int (.Int 1), ⟨32, 33⟩, []⟩, ⟨.Semic, ⟨33, 34⟩, []⟩, ⟨.RCurly, ⟨34, 35⟩, []⟩, ⟨.Eof, ⟨35, 35⟩, []⟩]
+
+example : (Grammar.parse exampleProgram).isSome = true := by decide +kernel
+example : ParseConform.EndsWithToken exampleProgram.toArray := ⟨_, rfl, by decide⟩
 
 end Spl.C04
